@@ -90,6 +90,7 @@ func RoutingFile(baseIdx int, sub, pkg, goImport, goName string, lit *int, full 
 	litOverride := "" // a literal shared by several methods (same path, different verbs)
 	var declOrder []string
 	var queryOverride [][2]string // {proto field name, query parameter name} instead of q/page_size
+	richBody := false             // body verbs: multi-word fields and string-keyed maps next to note/qty
 	add := func(cfg, verb, shapeLabel string, tmpl string, vars []string, hasVerb bool, leadingSlash bool) {
 		*lit++
 		k := *lit
@@ -132,6 +133,10 @@ func RoutingFile(baseIdx int, sub, pkg, goImport, goName string, lit *int, full 
 		}
 		if bodyVerb {
 			req.Fields = append(req.Fields, spec.F("note", num, spec.String), spec.F("qty", num+1, spec.Int64))
+			if richBody {
+				req.Fields = append(req.Fields, spec.F("display_name", num+2, spec.String), spec.F("extra_attrs", num+3, spec.String).MapOf(spec.String),
+					spec.FM("by_name", num+4, "."+pkg+".RouteLeaf").MapOf(spec.String), spec.FM("main_leaf", num+5, "."+pkg+".RouteLeaf"))
+			}
 		}
 		f.Messages = append(f.Messages, req)
 		m := &spec.Method{Name: mname, In: "." + pkg + "." + req.Name, Out: "." + pkg + ".RouteResp"}
@@ -244,6 +249,15 @@ func RoutingFile(baseIdx int, sub, pkg, goImport, goName string, lit *int, full 
 		add("shared", "DELETE", "3var-declared-rotated", "/%s/{user_id}/p/{post_id}/c/{id}", []string{"user_id", "post_id", "id"}, true, true)
 		add("shared", "PATCH", "3var-declared-rotated", "/%s/{user_id}/p/{post_id}/c/{id}", []string{"user_id", "post_id", "id"}, true, true)
 		declOrder = nil
+	case "bodymap":
+		// body verbs whose body carries multi-word fields and string-keyed maps (map keys are caller data)
+		f.Messages = append(f.Messages, &spec.Message{Name: "RouteLeaf", Fields: []*spec.Field{spec.F("full_name", 1, spec.String), spec.F("rank_no", 2, spec.Int32), spec.F("extra_attrs", 3, spec.String).MapOf(spec.String)}})
+		richBody = true
+		for _, v := range []string{"POST", "PUT", "PATCH"} {
+			add("bodymap", v, PathShapes[1].Label, PathShapes[1].Tmpl, PathShapes[1].Vars, true, true)
+			add("bodymap", v, PathShapes[0].Label, PathShapes[0].Tmpl, PathShapes[0].Vars, true, true)
+		}
+		richBody = false
 	case "bodyquery":
 		// body verbs with query-annotated fields (generators place them differently)
 		for _, v := range []string{"POST", "PUT", "PATCH"} {
